@@ -372,6 +372,8 @@ def header_tasks(tier):
     out += [('alts', i) for i in range(NSET)]
     out += [('pairs', i) for i in range(NSET)]
     out += [('unset',), ('sizes',)]
+    out += [('dense-sizes', lo) for lo in range(0, 70000, 10000)]
+    out += [('dense-channels', lo) for lo in range(0, 65536, 8192)]
     return out
 
 
@@ -410,6 +412,18 @@ def header_cases(task, tier, seed=0):
             yield {'headers': {'blob': 'v' * n}}, n, 5
             yield {'headers': {'k': ['v' * (n // 2), bytearray(n // 2)]},
                    'app_id': 'big'}, n, 5
+    elif kind == 'dense-sizes':
+        lo = task[1]
+        for size in range(lo, lo + 10000):
+            yield ({'delivery_mode': 2} if size & 1 else {}), size, 1
+        if lo == 0:
+            for k in range(16, 65):
+                for d in range(-64, 65):
+                    if 0 <= 2**k + d < 2**64:
+                        yield {'priority': k}, 2**k + d, 2
+    elif kind == 'dense-channels':
+        for ch in range(task[1], task[1] + 8192):
+            yield ({'app_id': 'c'} if ch % 3 == 0 else {}), ch, ch
     elif kind == 'alts':
         idx = task[1]
         name, wire_type, _b = SETTABLE[idx]
@@ -648,6 +662,15 @@ def dense_cases(task, tier):
         for n in range(0, top):
             t = {'k%04d' % i: i for i in range(n)}
             yield m, (0, 'q', False, False, False, False, False, t), 1
+        # the same one and two levels down, to several KiB (many small
+        # entries, not one big string)
+        for n in range(0, 3000 if thorough else 1000, 7):
+            inner = {'k%04d' % i: (i if i % 3 else 'v%d' % i)
+                     for i in range(n)}
+            yield m, (0, 'q', False, False, False, False, False,
+                      {'outer': inner, 'z': 1}), 1
+            yield m, (0, 'q', False, False, False, False, False,
+                      {'arr': [inner, {'deep': inner}], 'z': n}), 1
     elif kind == 'table-strlen':
         m = M['Queue.Declare']
         for n in list(range(0, 600)) + _around([4096, 65536], 8):
